@@ -1,4 +1,4 @@
-//go:build c10
+//go:build c10 || c08
 
 package main
 
@@ -109,10 +109,16 @@ func c10Run(f []string) string {
 		default:
 		}
 		return fmt.Sprintf("ok errs=%s val=%s", errsStr(errs), HexS(want))
-	case "live":
-		// live <template>: a value defined to vary must still consult the context after optimisation
+	case "live", "livef":
+		// live <template> / livef <file> <template>: a value defined to vary must still consult the
+		// context after optimisation (also when nested in a sub-expression or a user function)
 		kb := funclib.NewKeyBuilderEx(true)
-		compiled, _ := kb.Compile(string(UnHex(f[1])))
+		tmpl := string(UnHex(f[1]))
+		if f[0] == "livef" {
+			kb, _ = loadFuncs(string(UnHex(f[1])), true)
+			tmpl = string(UnHex(f[2]))
+		}
+		compiled, _ := kb.Compile(tmpl)
 		cc := &countingCtx{inner: mkContext(".", ".")}
 		compiled.BuildKey(cc)
 		if cc.n == 0 {
@@ -249,8 +255,12 @@ func c10Gen(r *Rand, tier string) []string {
 		}
 	}
 	// values defined to vary must not be frozen
-	for _, t := range []string{"{time live}", "{time delta}", "a{time live}b", "{sumi {time delta} 1}", "{if 1 {time live}}"} {
+	for _, t := range []string{"{time live}", "{time delta}", "a{time live}b", "{sumi {time delta} 1}", "{if 1 {time live}}",
+		"{@map \"a\" \"{time live}\"}", "{@filter \"a b\" \"{time delta}\"}", "{@reduce {@ a b} \"{time live}\"}", "{@for 0 \"{lt {1} 2}\" \"{time live}\"}"} {
 		out = append(out, "live "+HexS(t))
+	}
+	for _, ft := range [][2]string{{"mynow {time live}\n", "{mynow x}"}, {"d {time delta}\nw {d {0}}!\n", "{w 1}"}, {"m {@map {0} \"{time live}\"}\n", "{m a}"}} {
+		out = append(out, "livef "+HexS(ft[0])+" "+HexS(ft[1]))
 	}
 	// user functions: definitions files with comments / continuations / later-calls-earlier
 	nf := 400
